@@ -8,6 +8,7 @@ import (
 	"encoding/json"
 	"fmt"
 	"io"
+	"strings"
 
 	"verifharness/internal/core"
 	"verifharness/internal/imggen"
@@ -88,6 +89,9 @@ func c18Build(cs c18Case) c18File {
 		var segs []imggen.JPEGSeg
 		if icc != nil {
 			n := (len(icc) + 65518) / 65519
+			if strings.HasSuffix(cs.Variant, "-255chunks") && len(icc) >= 255 {
+				n = 255
+			}
 			for k, part := range imggen.SplitICC(icc, n) {
 				segs = append(segs, imggen.ICCChunkSeg(k+1, n, part))
 			}
@@ -325,6 +329,24 @@ func c18Cases(seed int64, thorough bool) []c18Case {
 			add("JPEG", v, "after-sof", n)
 		}
 	}
+	// profiles of more than 4 MiB (more than 64 APP2 chunks), and 255 small chunks
+	addBig := func(format, variant, placement string, icc int) {
+		for _, p := range []int64{0, 1 << 20} {
+			for _, loader := range []string{loaderFor(format), "autometa"} {
+				for _, sc := range []string{"all", "4096", "seekable"} {
+					out = append(out, c18Case{format, variant, placement, icc, p, loader, sc, rng.U64()})
+				}
+			}
+		}
+	}
+	addBig("PNG", "ancillary", "after-header", 5<<20)
+	addBig("PNG", "plain", "after-ancillary", 4<<20+4097)
+	addBig("JPEG", "baseline", "after-header", 5<<20)
+	addBig("JPEG", "progressive", "after-sof", 4<<20+4097)
+	addBig("JPEG", "baseline-255chunks", "after-header", 30000)
+	addBig("JPEG", "baseline-255chunks", "after-sof", 255)
+	addBig("JPEG", "baseline-255chunks", "after-ancillary", 100<<10)
+	addBig("WebP", "VP8X+VP8", "after-header", 5<<20+1)
 	for _, v := range []string{"VP8", "VP8L", "VP8X+VP8", "VP8X+VP8L", "VP8X+ALPH+VP8", "VP8X+ANIM"} {
 		add("WebP", v, "none", 0)
 	}
